@@ -1324,7 +1324,12 @@ class ManifestRecursiveLoader:
                 # left in entry_dict and dropped like a stale entry)
                 if fpath == self.top_level_manifest_filename:
                     continue
-                mpath, fe = entry_dict.pop(fpath, (None, None))
+                # likewise for a sub-Manifest that lists itself: treat
+                # the file as having no entry yet
+                if entry_dict.get(fpath, (None, None))[0] == fpath:
+                    mpath, fe = None, None
+                else:
+                    mpath, fe = entry_dict.pop(fpath, (None, None))
                 if fe is not None:
                     if fe.tag == 'IGNORE':
                         continue
